@@ -34,7 +34,7 @@ pub fn items(evs: &[Ev]) -> Vec<Value> {
             Ev::List(s, cols) => {
                 flush(&mut out, &mut cur);
                 let ln: i64 = s.split(' ').next().and_then(|x| x.parse().ok()).unwrap_or(-1);
-                out.push(json!({"k":"list","ln":ln,"text":s,
+                out.push(json!({"k":"list","ln":ln,"text":s,"s":string_to_cps(s),
                     "cols": cols.iter().map(|c| json!([c.0, c.1])).collect::<Vec<_>>()}));
             }
             Ev::Cls => {
